@@ -873,7 +873,22 @@ impl std::fmt::Display for Meta {
     fn fmt(&self, f: &mut std::fmt::Formatter<'_>) -> std::fmt::Result {
         match self {
             | Self::Ident(name) => write!(f, "{name}"),
-            | Self::String(value) => write!(f, "{value:?}"),
+            | Self::String(value) => {
+                // Only the escapes the lexer knows: a debug rendering would also
+                // write `\0`, `\u{..}`, which read back as other characters.
+                write!(f, "\"")?;
+                for ch in value.chars() {
+                    match ch {
+                        | '\\' => write!(f, "\\\\")?,
+                        | '"' => write!(f, "\\\"")?,
+                        | '\n' => write!(f, "\\n")?,
+                        | '\r' => write!(f, "\\r")?,
+                        | '\t' => write!(f, "\\t")?,
+                        | ch => write!(f, "{ch}")?,
+                    }
+                }
+                write!(f, "\"")
+            }
             | Self::Integer(value) => write!(f, "{value}"),
             | Self::Apply { callee, args } => write!(
                 f,
